@@ -236,6 +236,10 @@ def gen_cases(rng, tier):
         for _ in range(rep):
             s = rand_frame(rng, 3) + frame(rand_body(rng, n)) + rand_frame(rng, 4)
             cs.append(mk(rng.randrange(2), 0, rand_chunks(rng, s, rng.choice((0, 2, 3, 4, 6))), "valid-boundary-len"))
+    # 1b'. just above the maximum, with the whole body present: must be refused, not handed on
+    for n in (LIMIT + 1, LIMIT + 7, LIMIT + 8, MAXLEN):
+        s = rand_frame(rng, 3) + frame(rand_body(rng, n)) + rand_frame(rng, 4)
+        cs.append(mk(rng.randrange(2), 0, rand_chunks(rng, s, rng.choice((0, 2, 4))), "oversized-full"))
     # 1c. leading zeros up to the val capacity
     for z in (1, 28, 29, 30, 31, 32, 100, VALCAP - 4, VALCAP - 3):
         body = rand_body(rng, 12)
@@ -393,12 +397,17 @@ CLASSIFIERS = {"tag-overflow": c_tag_overflow, "val-overflow": c_val_overflow, "
 
 
 def extra_search(rng, seeds, tier):
-    out = gen_cases(rng, "quick")
+    out = []
     for c in seeds[:20]:
         closed, mode, chunks = parse_case(c.line)
         s = b"".join(chunks)
-        for _ in range(10):
+        for _ in range(4):
             out.append(mk(closed, 0, rand_chunks(rng, s), "neighbour"))
+        # the same stream completed by plenty of bytes and a close: a reader that wrongly accepted a preamble now has
+        # to hand something on
+        for pad in (20, 300, MAXLEN + 40):
+            out.append(mk(True, 0, [s + bytes(rng.choice(b"AB=1\x01") for _ in range(pad)) + b"10=000" + SOH], "neighbour-padded"))
+    out += gen_cases(rng, "quick")[:400]
     return out
 
 
